@@ -469,10 +469,12 @@ def build(ft, bps=512, spc=1, nf=2, rsvd=None, rootent=None, clusters=100, fatse
     if ft == 32:
         if rootchain is None:
             nrc = max(1, -(-len(root) // bpc))
-            rootchain = [2] if nrc == 1 else None
-            if rootchain is None:
-                raise ValueError("root too large: give an explicit root chain")
-            fat[2] = eoc
+            rootchain = list(range(2, 2 + nrc))          # callers that build large roots keep clusters 2..2+n free for it
+            for a, b2 in zip(rootchain, rootchain[1:]):
+                if fat[a] != 0:
+                    raise ValueError("root directory chain collides with a file")
+                fat[a] = b2
+            fat[rootchain[-1]] = eoc
             img[caddr(2):caddr(2) + len(root)] = root
     else:
         ro = (rsvd + nf * fatsec) * bps
